@@ -192,7 +192,7 @@ func c16Account(c *Ctx, ci int, rec *c16Rec) {
 
 func c16Child(c *Ctx) error {
 	ncirc := c.N(3, 10)
-	budget := c.N(1000, 60000) // corrupted sessions in total
+	budget := c.N(700, 60000) // corrupted sessions in total
 	kinds := []otMaker{otKinds[0], otKinds[1]}
 	per := budget / ncirc
 	want_ci, _ := strconv.Atoi(os.Getenv("C16_CIRC"))
@@ -387,6 +387,10 @@ func c16Child(c *Ctx) error {
 const c16StreamProgram = "package main\nfunc main(a, b uint8) (uint8, bool) {\n\ts := a + b\n\treturn s ^ (a & b), s < a\n}\n"
 
 func c16RunStream(seed uint64, av, bv int, f *fault) (gRes []*big.Int, gErr error, stalled bool, lg, le int) {
+	return c16RunStreamProg(seed, c16StreamProgram, []string{fmt.Sprint(av)}, []string{fmt.Sprint(bv)}, f)
+}
+
+func c16RunStreamProg(seed uint64, src string, gIn, eIn []string, f *fault) (gRes []*big.Int, gErr error, stalled bool, lg, le int) {
 	sr := NewRNG(seed)
 	ga, ea, g2e, e2g := newDuplexPair(sr, 0)
 	if f != nil {
@@ -411,8 +415,8 @@ func c16RunStream(seed uint64, av, bv int, f *fault) (gRes []*big.Int, gErr erro
 				gch <- out{nil, fmt.Errorf("panic: %v", p)}
 			}
 		}()
-		_, vals, err := compiler.New(params).Stream(gConn, ot.NewCO(sr.Fork()), "c16", strings.NewReader(c16StreamProgram),
-			[]string{fmt.Sprint(av)}, nil)
+		_, vals, err := compiler.New(params).Stream(gConn, ot.NewCO(sr.Fork()), "c16", strings.NewReader(src),
+			gIn, nil)
 		gDone.Store(true)
 		gch <- out{vals, err}
 	}()
@@ -423,7 +427,7 @@ func c16RunStream(seed uint64, av, bv int, f *fault) (gRes []*big.Int, gErr erro
 				ech <- out{nil, fmt.Errorf("panic: %v", p)}
 			}
 		}()
-		_, vals, err := circuit.StreamEvaluator(eConn, ot.NewCO(sr.Fork()), []string{fmt.Sprint(bv)}, nil, false)
+		_, vals, err := circuit.StreamEvaluator(eConn, ot.NewCO(sr.Fork()), eIn, nil, false)
 		eDone.Store(true)
 		ech <- out{vals, err}
 	}()
@@ -536,6 +540,48 @@ func c16StreamChild(c *Ctx, w *bufio.Writer, startAt int) error {
 		b, _ := json.Marshal(rec)
 		fmt.Fprintf(w, "END %s\n", b)
 		w.Flush()
+	}
+	// Directed: the evaluator's argument is a struct; corrupt the program-info
+	// handshake (the transmitted argument types carry the member sizes).
+	structSrc := "package main\ntype In struct {\n\tx uint8\n\ty uint8\n}\nfunc main(a uint8, b In) uint16 {\n\treturn uint16(a) + uint16(b.x) * 3 + uint16(b.y) * 7\n}\n"
+	sgIn := []string{"1"}
+	seIn := []string{"200", "100"}
+	swant := []*big.Int{big.NewInt(1 + 600 + 700)}
+	sres, serr, sst, _, _ := c16RunStreamProg(seed, structSrc, sgIn, seIn, nil)
+	if serr != nil || sst || bigsString(sres) != bigsString(swant) {
+		fmt.Fprintf(w, "BASEFAIL streaming struct baseline: %v %v %s\n", serr, sst, bigsString(sres))
+		return nil
+	}
+	base := len(faults)
+	k := 0
+	for off := 36; off < 140; off++ {
+		for _, m := range []byte{0x04, 0xff} {
+			fi := base + k
+			k++
+			if fi < startAt {
+				continue
+			}
+			f := fault{dir: "g2e", off: off, kind: "replace", mask: m}
+			fmt.Fprintf(w, "BEGIN %d stream-struct:g2e:%d:%02x\n", fi, off, m)
+			w.Flush()
+			rec := c16Rec{Fi: fi, Dir: "stream-struct-g2e", Kind: "handshake", Off: off, Circuit: "streaming: " + structSrc}
+			gres, gerr, st, _, _ := c16RunStreamProg(seed, structSrc, sgIn, seIn, &f)
+			switch {
+			case gerr == nil && gres != nil && !st:
+				rec.Outcome = "result"
+				if bigsString(gres) != bigsString(swant) {
+					rec.Wrong = &c16Replay{Seed: c.Seed, Circuit: "streaming: " + structSrc, OT: "co", X: "1", Y: "200,100",
+						Dir: "g2e", Offset: off, Kind: "handshake-argument-type", Mask: int(m), Got: bigsString(gres), Want: bigsString(swant)}
+				}
+			case st && gerr == nil:
+				rec.Outcome = "stalled"
+			default:
+				rec.Outcome = "error"
+			}
+			b, _ := json.Marshal(rec)
+			fmt.Fprintf(w, "END %s\n", b)
+			w.Flush()
+		}
 	}
 	fmt.Fprintln(w, "DONE")
 	return nil
